@@ -266,3 +266,19 @@ func OpenCgf(ctx context.Context, wg *sync.WaitGroup) {
 	wg.Add(1)
 	cgf.OpenServer(ctx, wg)
 }
+
+// RunSBIServer does what service.Start's sbiServer.Run does, with an application context that is already
+// cancelled: the NRF registration loop gives up at once and the listener routine (startServer) is started.
+func RunSBIServer() error {
+	ctx, cancel := context.WithCancel(context.Background())
+	cancel()
+	a := &App{cfg: factory.ChfConfig, ctx: ctx}
+	a.proc, _ = processor.NewProcessor(a)
+	a.cons, _ = consumer.NewConsumer(a)
+	s, err := sbi.NewServer(a, "")
+	if err != nil {
+		return err
+	}
+	var wg sync.WaitGroup
+	return s.Run(context.Background(), &wg)
+}
